@@ -144,6 +144,47 @@ def run(props, tier, seed):
                             okc = ('Constraints passing: %d' % v.passes) in out and ('Constraints failing: %d' % v.failures) in out
                             b.check('C17.verify.same-counts-as-library', okc, w,
                                     'library passes=%d failures=%d; cli output %r' % (v.passes, v.failures, out[-200:]))
+                # ---------------- standard input as the data ('-') ----------------
+                if fmt == 'csv':
+                    with open(path, encoding='utf-8') as fh:
+                        text = fh.read()
+                    sout = os.path.join(top, '%s_stdin.tdda' % name)
+                    if os.path.exists(sout):
+                        os.unlink(sout)
+                    for argv in (['discover', '-', sout], ['discover', '-', '-']):
+                        w = dict(w0, argv=argv, stdin='the CSV text')
+                        b.case(('cli-stdin', name, tuple(argv)))
+                        code, out, err, exc = run_cli(argv, stdin_text=text)
+                        b.check('C17.discover.noraise', exc is None and code in (None, 0), w, '%r %r %s' % (code, exc, err[-300:]))
+                        if exc is not None:
+                            continue
+                        produced = out if argv[-1] == '-' else (open(sout).read() if os.path.exists(sout) else '')
+                        try:
+                            got = fields_of(produced[produced.index('{'):]) if '{' in produced else None
+                        except Exception:
+                            got = None
+                        try:
+                            lib = discover_df(load_df(path))
+                            want = json.loads(json.dumps(fields_of(lib.to_dict()), default=str))
+                        except Exception as e:
+                            b.check('C17.library.discover.noraise', False, w, repr(e)[:200])
+                            continue
+                        b.check('C17.discover.same-constraints-as-library', got == want, w,
+                                'cli (data on stdin) %r, library %r' % (got, want))
+                    for cpath in (base_tdda, tight):
+                        argv = ['verify', '-', cpath]
+                        w = dict(w0, argv=argv, stdin='the CSV text')
+                        b.case(('cli-stdin', name, 'verify', os.path.basename(cpath)))
+                        code, out, err, exc = run_cli(argv, stdin_text=text)
+                        try:
+                            v = verify_df(load_df(path), cpath)
+                        except Exception as e:
+                            continue
+                        b.check('C17.verify.noraise', exc is None, w, '%r %s' % (exc, err[-300:]))
+                        if exc is None:
+                            okc = ('Constraints passing: %d' % v.passes) in out and ('Constraints failing: %d' % v.failures) in out
+                            b.check('C17.verify.same-counts-as-library', okc, w,
+                                    'library passes=%d failures=%d; cli (data on stdin) output %r' % (v.passes, v.failures, out[-200:]))
                 # ---------------- detect ----------------
                 for extra, kw in (([], {}), (['--write-all'], {'write_all': True}),
                                   (['--per-constraint'], {}), (['--no-per-constraint'], {'per_constraint': False}),
